@@ -536,7 +536,10 @@ impl Property for C08 {
         let deep = match &c.fam {
             Fam::NestedAnchors { d, .. } => *d >= 4,
             Fam::Chain { len } => *len >= 4,
-            Fam::Doc { doc, .. } => nested_anchor_depth(doc) >= 4,
+            // (generated documents replay aliases inside the nested frames: there every
+            // replayed event is cloned into every open frame, so three levels already cost
+            // more than the K_REPLAY = 2 copies the bound allows - found by the libFuzzer tier)
+            Fam::Doc { doc, .. } => nested_anchor_depth(doc) >= 3,
             _ => false,
         };
         if deep { vec!["nested_anchor_recording_cost"] } else { vec![] }
